@@ -153,6 +153,7 @@ pub fn lookup_scenarios(thorough: bool) -> Vec<Scenario> {
     for b in ["E", "K"] {
         for p in lookup_paths(thorough) {
             let mut ops = vec![Op::new("resolve").root(ROOT_IN).path(p), Op::new("open_subpath").root(ROOT_IN).path(p).flags(O_RDONLY | O_NONBLOCK)];
+            if p == "a/b/lnk/f" || p == "a/b/c/d" { ops.push(Op::new("open_subpath").root(ROOT_IN).path(p).flags(O_PATH)); }
             if thorough || p.ends_with("lnk") || p == "abs" { ops.push(Op::new("resolve_nofollow").root(ROOT_IN).path(p)); ops.push(Op::new("readlink").root(ROOT_IN).path(p)); }
             for op in ops {
                 v.push(Scenario { name: format!("{}/{}", b, op.brief()), backend: b.into(), op, path: p.into() });
@@ -173,6 +174,7 @@ pub fn mutating_scenarios(thorough: bool) -> Vec<Scenario> {
     let mut ops: Vec<Op> = vec![
         Op::new("remove_all").root(ROOT_IN).path("a"),
         Op::new("remove_all").root(ROOT_IN).path("a/b/c"),
+        Op::new("remove_all").root(ROOT_IN).path("e/f"),
         Op::new("mkdir_all").root(ROOT_IN).path("a/b/x/y/z").mode(0o755),
         Op::new("mkdir_all").root(ROOT_IN).path("abs/x/y").mode(0o755),
         Op::new("mkdir_all").root(ROOT_IN).path("x/../../escaped").mode(0o755),
